@@ -22,9 +22,10 @@ type Clause struct {
 }
 
 type LoopSpec struct {
-	K      int
-	Anchor string
-	Invs   []Clause
+	K       int
+	Anchor  string
+	Invs    []Clause
+	Modular bool // obligations dominated by the loop are proved from the invariants alone
 }
 
 type GhostUpdate struct {
@@ -33,6 +34,7 @@ type GhostUpdate struct {
 	Text   string
 	E      Expr
 	Src    string
+	Hits   int
 }
 
 type AssertAt struct {
@@ -268,7 +270,7 @@ func (s *Specs) LoadContractFile(path, pkgPath string, isGo bool) {
 				continue
 			}
 			f := strings.Fields(rest)
-			if len(f) < 3 {
+			if len(f) < 2 {
 				errf(l.n, "bad loop clause")
 				continue
 			}
@@ -296,6 +298,18 @@ func (s *Specs) LoadContractFile(path, pkgPath string, isGo bool) {
 			}
 			if m := labelRe.FindStringSubmatch(kw2); m != nil {
 				kw2, lbl = m[1], m[2]
+			}
+			if kw2 == "modular" {
+				ls := cur.Loops[k]
+				if ls == nil {
+					ls = &LoopSpec{K: k}
+					cur.Loops[k] = ls
+				}
+				ls.Modular = true
+				if anchor != "" {
+					ls.Anchor = anchor
+				}
+				continue
 			}
 			if kw2 != "invariant" {
 				errf(l.n, "expected 'invariant' in loop clause, got %q", kw2)
